@@ -1,12 +1,12 @@
 SPECIFICATION Spec
 CONSTANTS
-  Alphabet = {"lt", "gt", "slash", "qmark", "bang", "eq", "dq", "sp", "nl", "x", "nul"}
+  Alphabet = {"lt", "gt", "slash", "sp", "x", "eq", "nul"}
   MaxLen = 5
-  Emit = TRUE
+  Emit = FALSE
   VoidClosesTag = TRUE
   NameStopNeedsGt = TRUE
   DoctypeQuote = "remember"
-  NulInTagIsError = TRUE
+  NulInTagIsError = FALSE
 INVARIANT TypeOK
 PROPERTY RefinesXml
 PROPERTY RefinesTok
